@@ -7,7 +7,7 @@ from typing import TYPE_CHECKING, Tuple, cast, overload
 
 import numpy as np
 
-from physt._construction import calculate_nd_frequencies
+from physt._construction import calculate_nd_frequencies, widen_weights
 from physt.histogram_base import HistogramBase
 
 if TYPE_CHECKING:
@@ -402,7 +402,7 @@ class HistogramND(HistogramBase):
                 f"Expecting array with {self.ndim} columns, {values_array.shape[1]} found."
             )
         if weights is not None:
-            weights = np.asarray(weights)
+            weights = widen_weights(np.asarray(weights))
             if weights.shape != (values_array.shape[0],):
                 raise ValueError(
                     f"Weights must have shape ({values_array.shape[0]},), {weights.shape} found."
